@@ -126,4 +126,115 @@ example : noisyOps [("CNOT", [.depol (1/10)])] [⟨"CNOT", [2], some [0, 1], .no
     [.gate ⟨"CNOT", [2], some [0, 1], .none, false⟩, .depolCh (depolRate (1/10) 3) [2, 0, 1]] := by
   simp [noisyOps, channelsFor]
 
+/-! ## zero rates: the exact density matrix is the noiseless one -/
+
+theorem addSV_size (a b : SV) : (addSV a b).size = a.size := by simp [addSV]
+theorem scaleSV_size (z : Cyc) (a : SV) : (scaleSV z a).size = a.size := by simp [scaleSV]
+
+theorem ofRat_zero : Cyc.ofRat 0 = 0 := rfl
+theorem ofRat_one : Cyc.ofRat 1 = 1 := rfl
+
+/-- adding a zero-weighted vector changes nothing (whatever its size) -/
+theorem addSV_scale_zero (a w : SV) : addSV a (scaleSV 0 w) = a := by
+  apply Array.ext
+  · simp [addSV]
+  · intro i h1 h2
+    simp only [addSV, Array.getElem_ofFn, scaleSV]
+    have ha : a.getD i 0 = a[i] := by simp [Array.getD, h2]
+    rw [ha]
+    by_cases hw : i < w.size
+    · have : (Array.map (fun x => (0 : Cyc) * x) w).getD i 0 = 0 * w[i] := by simp [Array.getD, hw]
+      rw [this]; ring
+    · have : (Array.map (fun x => (0 : Cyc) * x) w).getD i 0 = 0 := by simp [Array.getD, hw]
+      rw [this]; ring
+
+theorem scaleSV_one (a : SV) : scaleSV 1 a = a := by
+  apply Array.ext
+  · simp [scaleSV]
+  · intro i h1 h2
+    simp [scaleSV]
+
+/-- **a Pauli channel with rates (0, 0, 0) is the identity** on every density matrix -/
+theorem pauliCh_zero (n q : Nat) (v : SV) : applyPauliCh n 0 0 0 q v = v := by
+  have h1 : Cyc.ofRat (1 - 0 - 0 - 0) = 1 := by
+    have : (1 : Rat) - 0 - 0 - 0 = 1 := by norm_num
+    rw [this]; rfl
+  simp only [applyPauliCh, h1, ofRat_zero, scaleSV_one, addSV_scale_zero]
+
+/-- **a depolarising channel with rate 0 is the identity** on every density matrix, on any number of qubits -/
+theorem depolCh_zero (n : Nat) (qs : List Nat) (v : SV) : applyDepolCh n 0 qs v = v := by
+  simp only [applyDepolCh]
+  have h1 : Cyc.ofRat (1 - 0) = 1 := by
+    have : (1 : Rat) - 0 = 1 := by norm_num
+    rw [this]; rfl
+  have h0 : Cyc.ofRat (0 / ((4 : Rat) ^ qs.length - 1)) = 0 := by simp; rfl
+  rw [h1, h0, scaleSV_one]
+  generalize (pauliStrings qs).filter (fun s => !s.isEmpty) = strs
+  induction strs with
+  | nil => rfl
+  | cons s rest ih => rw [List.foldl_cons, addSV_scale_zero]; exact ih
+
+/-- every rate of the model is zero -/
+def Kind.isZero : Kind → Bool
+  | .pauli px py pz => px == 0 && py == 0 && pz == 0
+  | .depol p => p == 0
+def ZeroModel (m : Model) : Prop := ∀ e ∈ m, ∀ k ∈ e.2, Kind.isZero k = true
+
+/-- with zero rates every inserted channel is an identity channel -/
+theorem channels_zero (m : Model) (hm : ZeroModel m) (g : Gate) (n : Nat) (v : SV) :
+    ∀ c ∈ channelsFor m g, applyNOp n v c = some v := by
+  intro c hc
+  simp only [channelsFor] at hc
+  cases hf : m.find? (·.1 == g.name) with
+  | none => simp [hf] at hc
+  | some e =>
+    obtain ⟨nm, ks⟩ := e
+    simp only [hf, List.mem_flatMap] at hc
+    obtain ⟨k, hk, hck⟩ := hc
+    have hz := hm (nm, ks) (List.mem_of_find?_eq_some hf) k hk
+    cases k with
+    | pauli px py pz =>
+      simp only [Kind.isZero, Bool.and_eq_true, beq_iff_eq] at hz
+      obtain ⟨⟨rfl, rfl⟩, rfl⟩ := hz
+      simp only [List.mem_map] at hck
+      obtain ⟨q, _, rfl⟩ := hck
+      simp [applyNOp, pauliCh_zero]
+    | depol p =>
+      simp only [Kind.isZero, beq_iff_eq] at hz
+      subst hz
+      simp only [List.mem_singleton] at hck
+      subst hck
+      simp [applyNOp, depol_rate_zero, depolCh_zero]
+
+theorem foldlM_channels_zero (n : Nat) (cs : List NOp) (v : SV) (h : ∀ c ∈ cs, ∀ w, applyNOp n w c = some w) :
+    cs.foldlM (fun v o => applyNOp n v o) v = some v := by
+  induction cs with
+  | nil => rfl
+  | cons c rest ih =>
+    simp only [List.foldlM_cons, h c (by simp) v]
+    exact ih (fun c' hc' => h c' (by simp [hc']))
+
+/-- **a model with zero error rates reproduces the noiseless result**: for every circuit, every register size and every
+    set of noisy gate names, the exact density matrix with the all-zero noise model is the one without noise -/
+theorem zero_rates_noiseless (m : Model) (hm : ZeroModel m) (n : Nat) (gs : List Gate) :
+    runNoisy n (noisyOps m gs) = runNoisy n (gs.map NOp.gate) := by
+  unfold runNoisy
+  generalize basisSV (2 * n) 0 = v0
+  induction gs generalizing v0 with
+  | nil => rfl
+  | cons g rest ih =>
+    rw [noisyOps_cons, List.map_cons, List.foldlM_cons, List.foldlM_cons]
+    cases hg : applyNOp n v0 (NOp.gate g) with
+    | none => rfl
+    | some v1 =>
+      simp only [Option.bind_eq_bind, Option.bind_some]
+      rw [List.foldlM_append, foldlM_channels_zero n _ v1 (fun c hc w => channels_zero m hm g n w c hc)]
+      exact ih v1
+
+/-- non-vacuity: a model that names gates and carries both kinds of error, with zero rates -/
+example : ZeroModel [("H", [.pauli 0 0 0, .depol 0]), ("CNOT", [.depol 0])] := by
+  intro e he k hk
+  simp at he
+  rcases he with rfl | rfl <;> simp at hk <;> (try rcases hk with rfl | rfl) <;> decide
+
 end Tangelo.C19
